@@ -10,6 +10,7 @@
 -/
 import IocProofs.Lemmas.MatchPoint
 import IocProofs.Lemmas.MatchExamples
+import IocProofs.Lemmas.M2IsCode
 namespace Ioc.C06
 open Ioc Ioc.Tag Ioc.Match
 
@@ -170,5 +171,88 @@ example : (resolveOne pop funcGetAny).map (·.cands) = some [0, 1] := by decide
 example : funcNameAndResult (ofString "Get") (ofString "x") pA = true ∧
     funcNameAndResult (ofString "Get") (ofString "x") pC = false := by decide
 end examples
+
+/-! ### the tie to the code: Property.Inject IS the regenerated program
+
+`Ioc.Progs.prop_Inject` is the syntax tree of `Property.Inject` (component_definition/property.go), re-translated from
+/repo's source on every run (MiniGo, Ioc.GoSem; the `switch` on the field's kind is desugared into an if/else chain).
+Run by the interpreter — IsRequired / IsSelf / AssignableTo / Kind answered by an arbitrary `Sem.InjCtx`, reflection
+writes recorded in the world — it returns the error flag and performs the writes of `Sem.injectModel`: the holder itself
+is dropped first; nothing left, or something unassignable ⇒ error when required and NO write at all when optional;
+otherwise a slice receives every remaining meta exactly once in order (element i ← i-th meta) and a single field the
+first one; every injected meta records the holder as dependent; `Injects` is set to what was injected.
+The seeded changes C01B, C01C, C02B, C03B, C06D, C07D, C14C all edited this function. -/
+
+theorem C06_code_Inject (c : Sem.InjCtx) (metas : List Nat) :
+    Go.run (Sem.injPrims c) Progs.prop_Inject [.list (metas.map Sem.encM)] {} =
+      some (Sem.encErr (Sem.injectModel c metas).1, (Sem.injectModel c metas).2) :=
+  Sem.inject_sem c metas
+
+/-- what is written: only metas that are not the holder and are assignable; a slice gets ALL of those, once each, in
+    order; nothing is written when an error is returned -/
+theorem C06_code_inject_writes (c : Sem.InjCtx) (metas : List Nat) (hc : c.isComponent = true) :
+    let r := Sem.injectModel c metas
+    (r.1 = true → r.2 = {}) ∧
+    (∀ ms, r.2.injects = some ms →
+        ms = metas.filter (fun m => !(c.isSelf m)) ∧ (∀ m ∈ ms, c.assignable m = true) ∧
+        (c.slice = true → r.2.elems = (List.range ms.length).zip ms ∧ r.2.deps = ms) ∧
+        (c.slice = false → r.2.single = ms.head? ∧ r.2.deps = ms.take 1)) := by
+  simp only [Sem.injectModel, hc, Bool.not_true, Bool.false_eq_true, if_false]
+  by_cases h0 : metas.isEmpty = true
+  · simp [h0]
+  · simp only [h0, if_false]
+    generalize metas.filter (fun m => !(c.isSelf m)) = L
+    unfold Sem.injectTail
+    cases L with
+    | nil => simp
+    | cons a t =>
+      simp only [List.isEmpty_cons, Bool.false_eq_true, if_false]
+      cases h2 : ((a :: t).any fun m => !(c.assignable m)) with
+      | true => simp
+      | false =>
+        simp only [Bool.false_eq_true, if_false]
+        have hall : ∀ m ∈ a :: t, c.assignable m = true := by
+          intro m hm
+          cases hv : c.assignable m with
+          | true => rfl
+          | false =>
+            have : ((a :: t).any fun m => !(c.assignable m)) = true :=
+              List.any_eq_true.mpr ⟨m, hm, by simp [hv]⟩
+            rw [h2] at this; cases this
+        cases hs : c.slice with
+        | true =>
+          simp only [if_true]
+          refine ⟨fun h => by simp at h, ?_⟩
+          intro ms hms
+          simp only [Option.some.injEq] at hms
+          subst hms
+          exact ⟨rfl, hall, fun _ => ⟨rfl, rfl⟩, fun h => by simp at h⟩
+        | false =>
+          simp only [Bool.false_eq_true, if_false]
+          refine ⟨fun h => by simp at h, ?_⟩
+          intro ms hms
+          simp only [Option.some.injEq] at hms
+          subst hms
+          exact ⟨rfl, hall, fun h => by simp at h, fun _ => ⟨rfl, rfl⟩⟩
+
+/-- THE MACHINE IS THE CODE at the Inject step: in every machine state whose top frame has collected all candidates of
+    its current point, `M2.step` fails, skips or writes the field exactly as the regenerated `Property.Inject` does when
+    `IsSelf` is "same component name as the holder" and `AssignableTo` is the point's compatibility marking.
+    (`ids`/`obj`: any naming of the collected objects.) -/
+theorem C06_machine_inject_is_code (sc : M2.Scen) (st : M2.St) (f : M2.Frame) (rest : List M2.Frame)
+    (hrun : st.status = .running) (hst : st.stack = f :: rest) (hp : f.p < (M2.pts sc f.name).length)
+    (hd : ¬ f.d < ((M2.pts sc f.name)[f.p]).cands.length) (hne : ((M2.pts sc f.name)[f.p]).cands ≠ [])
+    (ids : List Nat) (obj : Nat → M2.Obj) (hacc : ids.map obj = f.acc) (hids : ids ≠ []) :
+    ∃ err w, Go.run (Sem.injPrims (M2.injCtxOf ((M2.pts sc f.name)[f.p]) f.name obj)) Progs.prop_Inject
+                [.list (ids.map Sem.encM)] {} = some (Sem.encErr err, w) ∧
+      M2.step sc st =
+        (if err then M2.failAt st f.name
+         else match w.injects with
+           | none => { st with stack := M2.Lc.advance f :: rest }
+           | some ms => { st with
+               fields := M2.upd2 st.fields f.name f.p
+                 (if ((M2.pts sc f.name)[f.p]).slice then ms.map obj else (ms.map obj).take 1),
+               stack := M2.Lc.advance f :: rest }) := by
+  exact ⟨_, _, Sem.inject_sem _ ids, M2.step_inject_is_code sc st f rest hrun hst hp hd hne ids obj hacc hids⟩
 
 end Ioc.C06
